@@ -190,6 +190,64 @@ def check_row(ctx, row, seed):
                 gn.matrix
         except Exception as ex:
             out.append(("reparam-raises:" + name, "%s: re-parametrising raised %s: %s" % (name, type(ex).__name__, str(ex)[:200])))
+    # histories that START at a special point (all parameters 0, pi, 2 pi: the matrix there may be the identity, self-adjoint,
+    # diagonal ...): nothing learnt about the gate at that point may survive re-parametrisation - flag, dagger and matrix
+    # of the re-parametrised gate are those of the gate built directly at the new parameters
+    if npar > 0 and not out:
+        import sympy
+
+        syms = sympy.symbols("t0:%d" % npar)
+        targets = [tuple(rng.uniform(0.2, 2.9) for _ in range(npar)) for _ in range(2)]
+        for start in (0.0, math.pi, 2 * math.pi, 0):
+            try:
+                g0 = gate_of(name, [start] * npar)
+                g0.matrix, g0.dagger.matrix
+                for q in targets:
+                    want = poly_eval(row["poly"], q)
+                    routes = (("replace_params", g0.replace_params(q)), ("replace_params to symbols, then bind", g0.replace_params(tuple(syms)).bind(dict(zip(syms, q)))))
+                    for how, gg in routes:
+                        mm = np_matrix(gg.matrix)
+                        dm = np_matrix(gg.dagger.matrix)
+                        if not close(mm, want):
+                            out.append(("special-start:matrix:" + name, "%s built at %s, %s to %s: the matrix is not the gate's matrix at the new parameters" % (name, (start,) * npar, how, q)))
+                        elif not close(dm, want.conj().T):
+                            out.append(("special-start:dagger:" + name, "%s built at %s, %s to %s: .dagger.matrix is not the conjugate transpose (is_hermitian=%s)" % (name, (start,) * npar, how, q, getattr(gg, "is_hermitian", None))))
+                        elif bool(getattr(gg, "is_hermitian", False)) and not close(mm, mm.conj().T):
+                            out.append(("special-start:flag:" + name, "%s built at %s, %s to %s: flagged self-adjoint but the matrix is not" % (name, (start,) * npar, how, q)))
+            except Exception as ex:
+                out.append(("special-start:raises:" + name, "%s built at %s and re-parametrised: raised %s: %s" % (name, (start,) * npar, type(ex).__name__, str(ex)[:200])))
+            if out:
+                break
+    # parameters that are COMPOUND real expressions (a + b, 2 t, -t, t/3, pi/5 + t ...): "the matrix can be computed for
+    # every real parameter" - the symbolic matrix, evaluated at a point, is the polynomial at the values of the expressions;
+    # for the one-parameter families this includes the right-hand side G(a + b) of the group law
+    if npar > 0 and not out:
+        import sympy
+
+        a, b = sympy.symbols("a b", real=True)
+        u = sympy.Symbol("u")
+        forms = [a + b, 2 * a, -a, a / 3, sympy.pi / 5 + u, a - b, u * 2 + 1, sympy.Rational(1, 2) * (a + u)]
+        point = {a: 0.37, b: -1.21, u: 2.05}
+        for k0 in range(len(forms)):
+            exprs = [forms[(k0 + j) % len(forms)] for j in range(npar)]
+            vals = tuple(float(e.subs(point)) for e in exprs)
+            try:
+                gsym = gate_of(name, exprs)
+                msym = sympy.Matrix(gsym.matrix).subs(point)
+                mm = np.array(msym.evalf().tolist(), dtype=complex)
+                if tuple(gsym.params) != tuple(exprs):
+                    out.append(("compound:params:" + name, "%s(%s) reports parameters %s" % (name, exprs, gsym.params)))
+                if gsym.free_symbols is not None and set(gsym.free_symbols) != set().union(*[e.free_symbols for e in exprs]):
+                    out.append(("compound:free:" + name, "%s(%s) reports free symbols %s" % (name, exprs, gsym.free_symbols)))
+                bound = gsym.bind(point)
+                mb = np_matrix(bound.matrix)
+            except Exception as ex:
+                out.append(("compound:raises:" + name, "%s(%s): the matrix for compound real expressions cannot be computed: %s: %s" % (name, exprs, type(ex).__name__, str(ex)[:200])))
+                break
+            want = poly_eval(row["poly"], vals)
+            if not close(mm, want) or not close(mb, want):
+                out.append(("compound:matrix:" + name, "%s(%s) at %s: the symbolic matrix evaluated at the point (or the bound gate's matrix) is not the gate's matrix at %s" % (name, exprs, point, vals)))
+                break
     return out
 
 
